@@ -95,6 +95,12 @@ class DecodeState:
         ]:
             extracted_bytes = extracted_bytes[::-1]
 
+        if bit_length % 8 != 0 and base_data_type in (DataType.A_BYTEFIELD, DataType.A_UTF8STRING,
+                                                       DataType.A_ASCIISTRING,
+                                                       DataType.A_UNICODE2STRING):
+            raise DecodeError(f"The size of {base_data_type.value} objects must be a "
+                              f"multiple of 8 bits (is: {bit_length} bits)")
+
         padding = (8 - (bit_length + self.cursor_bit_position) % 8) % 8
         raw_value, = bitstruct.unpack_from(
             f"{base_data_type.bitstruct_format_letter}{bit_length}",
@@ -120,7 +126,11 @@ class DecodeState:
             str_encoding = get_string_encoding(base_data_type, base_type_encoding,
                                                is_highlow_byte_order)
             if str_encoding is not None:
-                internal_value = raw_value.decode(str_encoding, errors=text_errors)
+                try:
+                    internal_value = raw_value.decode(str_encoding, errors=text_errors)
+                except UnicodeError as e:
+                    raise DecodeError(f"Cannot decode {raw_value.hex()} as string "
+                                      f"with encoding '{str_encoding}': {e}") from e
             else:
                 internal_value = "ERROR"
 
